@@ -385,6 +385,8 @@ func (n *Client) constructPost(ctx context.Context, buffer *bytes.Buffer, data i
 // postWrapper compresses JSON for Insights
 func (n *Client) postWrapper(ctx context.Context, json []byte, dataType string) (func() error, error) {
 	return func() error {
+		// payload is per attempt: a retry must start from the uncompressed JSON again
+		payload := json
 		headers := map[string]string{
 			"Content-Type": "application/json",
 			"User-Agent":   n.userAgent,
@@ -402,7 +404,7 @@ func (n *Client) postWrapper(ctx context.Context, json []byte, dataType string) 
 			// compress json
 			var buf bytes.Buffer
 			zw := gzip.NewWriter(&buf)
-			_, err := zw.Write([]byte(json))
+			_, err := zw.Write(payload)
 			if err != nil {
 				return err
 			}
@@ -411,7 +413,7 @@ func (n *Client) postWrapper(ctx context.Context, json []byte, dataType string) 
 			if err := zw.Close(); err != nil {
 				return err
 			}
-			json = buf.Bytes()
+			payload = buf.Bytes()
 		}
 
 		address := n.address
@@ -419,7 +421,7 @@ func (n *Client) postWrapper(ctx context.Context, json []byte, dataType string) 
 			address = n.addressMetrics
 		}
 
-		req, err := http.NewRequest("POST", address, bytes.NewBuffer(json))
+		req, err := http.NewRequest("POST", address, bytes.NewBuffer(payload))
 		if err != nil {
 			return fmt.Errorf("unable to create http.Request: %v", err)
 		}
